@@ -80,10 +80,22 @@ def worker(job, r):
                 path = '/'
             if frag is not None and path is None and query is None:
                 path = '/'      # domain decision: the vendored http_parser does not accept '#' right after the authority
+            if rng.random() < 0.12:
+                # long URIs (an access token in the query, a deep path): every size around 2^11, 2^12, 2^13 and up to ~60000 characters
+                n = rng.choice([2000, 2030, 2040, 2047, 2048, 2049, 2060, 4090, 4096, 4100, 8192, 20000, 60000]) + rng.randrange(-3, 4)
+                if rng.random() < 0.6:
+                    query = 'token=' + ''.join(rng.choice('ABCDEFabcdef0123456789') for _ in range(n)) + '&end=TAIL-OF-QUERY'
+                    if path is None:
+                        path = '/'
+                else:
+                    path = '/' + '/'.join(''.join(rng.choice('abcdefgh') for _ in range(60)) for _ in range(n // 61)) + '/END-OF-PATH'
+                long_uri = True
+            else:
+                long_uri = False
             for embedded in (None, (rng.choice(USERS), rng.choice(KEYS))):
                 for explicit in (None, (rng.choice(USERS) + 'X', rng.choice(KEYS) + 'X'), (rng.choice(USERS) + 'X', None), (None, rng.choice(KEYS) + 'X')):
                     for api in ('aggr', 'ext', 'async-sign', 'async-ext'):
-                        if rng.random() < 0.55:
+                        if rng.random() < (0.3 if long_uri else 0.55):
                             continue
                         if canon == 'ksi+tcp' and port is None:
                             continue
@@ -157,9 +169,11 @@ def one_case(sess, r, rng, ci, canon, spelled, uri, transport, repl, host, port,
     fo = sess.fopens[nfo:]
     res = sess.resolved[nres:]
     used = 'http' if http else ('tcp' if (tcp or res) else ('file' if fo else 'none'))
-    r.observe((canon, api, used, embedded is not None, explicit is not None, host[0] == '[', port is None, path is None, query is None, frag is None))
+    r.observe((canon, api, used, embedded is not None, explicit is not None, host[0] == '[', port is None, path is None, query is None, frag is None, len(uri) > 2040, len(uri) > 4090))
+    if len(uri) > 2040:
+        r.count('long_uris')
     if ci % 37 == 1:
-        r.sample(dict(uri=uri, explicit_credentials=explicit, api=api, transport_used=used, url_at_http_library=[h['url'] for h in http][:1], resolved=res[:1], opened=fo[:1], set_endpoint_rc=setrc))
+        r.sample(dict(uri=uri[:300], uri_length=len(uri), explicit_credentials=explicit, api=api, transport_used=used, url_at_http_library=[h['url'][:300] for h in http][:1], resolved=res[:1], opened=fo[:1], set_endpoint_rc=setrc))
     r.count('transport_%s' % used)
     kind = 'ext' if 'ext' in api else 'aggr'
     # refusal rules of the asynchronous service
